@@ -137,9 +137,37 @@ func BlameCut(d *refmodel.Datum, k int, accepted CutOracle, standalone func(*ref
 			break
 		}
 	}
-	rel := sp.Path[len(ctxPath):]
+	rel := append([]int(nil), sp.Path[len(ctxPath):]...)
 	cname := "ctx=" + ctxName(ctx.T.Kind)
 	intD := Dist(refmodel.Atom('i'))
+	kctx := k - ctxStart
+	// a list or map context with several entries is reduced to the entry
+	// that contains the cut when the truncation is still accepted
+	if (ctx.T.Kind == refmodel.List || ctx.T.Kind == refmodel.Map) && len(rel) > 0 {
+		step := 1
+		if ctx.T.Kind == refmodel.Map {
+			step = 2
+		}
+		if len(ctx.Elems) > step {
+			first := rel[0] - rel[0]%step
+			_, csp := refmodel.EncodeSpans(ctx)
+			if est, ok := startOf(csp, []int{first}); ok && kctx >= est {
+				c := *ctx
+				c.Elems = append([]*refmodel.Datum(nil), ctx.Elems[first:first+step]...)
+				nk := 4 + (kctx - est)
+				if accepted(&c, nk) {
+					ctx, kctx = &c, nk
+					rel[0] = rel[0] % step
+					ctxStart = k - kctx
+					// the cut element is the same datum, at a new offset
+					_, nsp := refmodel.EncodeSpans(ctx)
+					if ls, ok := startOf(nsp, rel); ok {
+						leafStart = ctxStart + ls
+					}
+				}
+			}
+		}
+	}
 	// a struct context: replace its member on the way to the cut element
 	// (whatever it contains) by an integer cut in its middle
 	if ctx.T.Kind == refmodel.Tuple || ctx.T.Kind == refmodel.Struct {
